@@ -2,6 +2,7 @@ INIT TInit
 NEXT TNext
 CONSTANTS
   Stacks = {"wsgi", "asgi"}
+  Framings <- AnyFraming
   CTypes = {"json", "form", "none"}
   HandlerOf <- IdHandler
   BodyKinds = {"empty", "valid", "truncated", "badenc"}
